@@ -529,7 +529,11 @@ def handleRect (s : St) (hd : RectHdr) (bs : Bytes) : Res (St × Bytes) :=
       else if e = encUltra then handleUltra s x y w h bs
       else if e = encTRLE then handleTRLE s x y w h bs
       else if e = encZlib then handleZlib s x y w h bs
-      else if e = encTight then handleTight s x y w h bs
+      else if e = encTight then
+        -- fixed code (c5839d8): a JPEG rectangle of zero width or height is refused (tjDecompress would
+        -- take 0 as "use the size of the image"); every earlier exit of that path is FALSE as well
+        (if (w = 0 ∨ h = 0) ∧ s.fmt.bpp ≠ 8 ∧ (bs.headD 0).toNat / 16 = tightJpeg then .no
+         else handleTight s x y w h bs)
       else if e = encZRLE then handleZRLE s x y w h bs
       else if e = encUltraZip then handleUltraZip s x y w bs
       else if e = encZYWRLE then .unk "encoding not modelled"
@@ -555,7 +559,13 @@ def handleMessage (s : St) (bs : Bytes) : Res (St × Bytes) := do
     let (ux, uy, uw, uh) := s.upd
     let s := sendFBUR s ux uy uw uh true
     pure (s.log "fin", bs)
-  else if t = msgSetColourMapEntries then pure (s, bs)       -- the library reads nothing (TODO in the C code)
+  else if t = msgSetColourMapEntries then do
+    -- fixed code (fixes/C07-colourmap-body.diff): no colour map is kept, but the header and the
+    -- `nColours` entries of 6 bytes are read, so the following messages are found where they start
+    let (hd, bs) ← ofOpt (takeN 5 bs)
+    let n := (hd.getD 3 0).toNat * 256 + (hd.getD 4 0).toNat
+    let (_, bs) ← ofOpt (takeN (n * 6) bs)
+    pure (s, bs)
   else if t = msgBell then pure (s.log "bell", bs)
   else if t = msgServerCutText then do
     let (hd, bs) ← ofOpt (takeN (szServerCutText - 1) bs)
